@@ -8,6 +8,19 @@ import re
 
 D = 10 ** 18
 LIM = 10 ** 18
+# validator names (PROTOCOL.md section 1): `val` + one character of VAL_ALPHABET; the first NVALS
+# (val0..val9, vala, valb) exist on the chain
+VAL_ALPHABET = '0123456789abcdefghijklmnopqrstuvwxyz'
+NVALS = 12
+
+
+def chain_val_index(v):
+    """index of validator name v in VALS, or None if v is not a validator of the chain"""
+    if len(v) == 4 and v.startswith('val'):
+        i = VAL_ALPHABET.find(v[3])
+        if 0 <= i < NVALS:
+            return i
+    return None
 
 
 # ------------------------------------------------------------------ helpers over a parsed dump
@@ -1070,7 +1083,8 @@ def mon_c13(hs, prev, op, ok, trace, cur, known):
     names = [x.split(':')[0] for x in vals]
     pd, cd = delegs(prev), delegs(cur)
     env = prev.one('env')
-    can = env[4][int(v[3:])] == '1' if v.startswith('val') and v[3:].isdigit() and int(v[3:]) < 8 else False
+    vi = chain_val_index(v)
+    can = env[4][vi] == '1' if vi is not None else False
     red = [x for x in tl if x[1] == 'redelegate' and x[2] == 'hub']
     if can and pd.get(v, 0) > 0:
         if cd.get(v, 0) != 0:
@@ -1335,7 +1349,7 @@ def mon_c19(hs, prev, op, ok, trace, cur, known):
         return None   # the fee keeper is one of the protocol accounts: outside the trusted configuration (E4)
     ps = stored(prev)
     rv = prev.one('rg.vals')
-    if not rv or rv[0] == 'err' or not all(re.match(r'val[0-7]:', x) for x in rv):
+    if not rv or rv[0] == 'err' or not all(chain_val_index(x.split(':')[0]) is not None for x in rv):
         return None
     if not ok:
         if ps[2] + ps[3] > 0 and len(delegs(prev)) > 0:
